@@ -26,7 +26,8 @@ REQUIRED_COUNTERS = {"cases_cycle": {"quick": 300, "thorough": 5000},
                      "cases_gcm_inner_stack_path": {"quick": 300, "thorough": 5000},
                      "inside_extract_compared": {"quick": 3000, "thorough": 50000},
                      "equal_code_not_dispatched": {"quick": 100, "thorough": 1000},
-                     "late_registration_cases": {"quick": 80, "thorough": 80}}
+                     "late_registration_cases": {"quick": 80, "thorough": 80},
+                     "hooks_that_extract_something_themselves": {"quick": 2000, "thorough": 40000}}
 SHARD_TIMEOUT = {"quick": 400, "thorough": 5400}
 INTERPS = ["3.12", "3.11", "3.10", "3.9"]
 
@@ -104,22 +105,51 @@ def worker(spec):
 
     def do_unwrap(mgr, ctx):
         LOG.append(("unwrap", id(mgr)) + snap(ctx, mgr))
-        return PLAN[id(mgr)]["unwrap"]
+        return PLAN.get(id(mgr), PLAN_DEFAULT)["unwrap"]
+
+    def nested_look(mgr):
+        # what the documentation of unwrap_context_generator suggests hooks do: extract something else from
+        # inside the hook.  The extraction this hook runs in must carry on as if nothing had happened.
+        opts = PLAN.get(id(mgr), PLAN_DEFAULT).get("nest")
+        if opts is not None:
+            res.count("hooks_that_extract_something_themselves")
+            with warnings.catch_warnings():
+                warnings.simplefilter("ignore")
+                s_n = extract(NESTED_TARGET, with_contexts=opts[0], recurse_child_tasks=opts[1])
+            if len(s_n.frames) != 1:
+                res.violation(kind="fill_context differs from the model", case="nested extract from a hook",
+                              problems=["nested extraction returned %d frames" % len(s_n.frames)], interp=interp)
 
     def do_elab(mgr, ctx):
         LOG.append(("elab", id(mgr)) + snap(ctx, mgr))
-        e = PLAN[id(mgr)]["elab"]
+        nested_look(mgr)
+        e = PLAN.get(id(mgr), PLAN_DEFAULT)["elab"]
         if "desc" in e:
             ctx.description = "d%d" % mgr.i
         if "children" in e:
             ctx.children = [Context(obj=None, is_async=False)]
         if "inner" in e:
             ctx.inner_stack = Stack(root=None, frames=[])
-        tgt = PLAN[id(mgr)].get("setobj")
+        tgt = PLAN.get(id(mgr), PLAN_DEFAULT).get("setobj")
         if tgt is not None:
             # like the built-in Trio nursery hook: the elaborate hook substitutes the manager itself;
             # unwrapping must then continue from the substituted object
             ctx.obj = tgt
+
+    class PlainForNesting(object):
+        def __enter__(self):
+            return self
+
+        def __exit__(self, *e):
+            return False
+
+    def _nested_target():
+        with PlainForNesting():
+            yield 0
+
+    NESTED_TARGET = _nested_target()
+    next(NESTED_TARGET)
+    PLAN_DEFAULT = {"unwrap": None, "elab": ()}
 
     unwrap_context.register(WA)(do_unwrap)
     unwrap_context.register(WC)(do_unwrap)
@@ -267,7 +297,8 @@ def worker(spec):
             else:
                 u = ms[k + 1]
             PLAN[id(m)] = dict(kind=kinds[k], unwrap=u,
-                               elab=rng.sample(["desc", "children", "inner"], rng.randint(0, 3)))
+                               elab=rng.sample(["desc", "children", "inner"], rng.randint(0, 3)),
+                               nest=(rng.random() < 0.5, rng.random() < 0.5) if rng.random() < 0.3 else None)
         # some elaborate hooks substitute context.obj by a manager of another dispatch type
         for k, m in enumerate(list(ms)):
             if not is_gcm(m) and rng.random() < 0.12:
